@@ -30,7 +30,10 @@ func Verif_C01_ageing() {
 	c := verifCase(cases)
 	sliceNs := int64(verifParam("d1SliceMs")) * int64(time.Millisecond)
 	maxD2 := int64(verifParam("maxD2Ms")) * int64(time.Millisecond)
-	const I = int64(window) / buckets
+	// the statement's numbers, not the code's constants: trailing 10 s in 40 buckets
+	const W = int64(10 * time.Second)
+	const N = 40
+	const I = W / N
 
 	t0 := verifInt64("t0")
 	verifAssume(t0 >= 0)
@@ -59,17 +62,17 @@ func Verif_C01_ageing() {
 
 	eT := (d1 + d2) / I
 	e1 := d1 / I
-	succVisible := 0 > eT-buckets
-	failVisible := e1 > eT-buckets
+	succVisible := 0 > eT-N
+	failVisible := e1 > eT-N
 	wantAcc := verifIte(succVisible, int(nS), 0)
 	wantTot := wantAcc + verifIte(failVisible, nF, 0)
 	verifAssert(int(acc) == wantAcc, "history: successes are exactly those of the last 40 bucket intervals")
 	verifAssert(int(tot) == wantTot, "history: total is exactly the outcomes of the last 40 bucket intervals")
 	if err != nil {
-		verifAssert(d2 < int64(window), "rejected only while failures are younger than 10s")
+		verifAssert(d2 < W, "rejected only while failures are younger than 10s")
 		verifReach("rejected")
 	} else {
-		if d2 >= int64(window) {
+		if d2 >= W {
 			verifReach("aged-out-admitted")
 		} else {
 			verifReach("admitted")
